@@ -13,25 +13,30 @@ CLAIMED = {
              "default features off) run on the real rust_decimal 1.37.2. Decided: "
              "(1) round trip, exact region: for every u128 num <= 2^96-1 (every i128 with |num| <= 2^96-1) and every u8 decimals, "
              "unsigned/signed_fixed_to_decimal returns Some(d) iff decimals <= 28, d is exactly num * 10^-decimals (mantissa and scale "
-             "compared), and decimal_to_value / decimal_to_signed_value(d, decimals) returns Ok(num); for every u64 / i64 amount and "
-             "decimals <= 28, unsigned/signed_amount_to_decimal is exact and decimal_to_amount returns the amount (Err for a negative one). "
-             "(2) no panic: unsigned/signed_fixed_to_decimal for every u128 / i128 and every u8 decimals (this is the check that found the "
-             "panic fixed in a64d072), unsigned/signed_value_to_decimal for every u128 / i128, unsigned/signed_amount_to_decimal for every "
-             "u64 / i64 and every u8 decimals (zero above 47 decimals, sign kept), decimal_to_signed_value for every valid Decimal "
-             "(96-bit mantissa, either sign, scale <= 28) and every u8 decimals. "
-             "(3) errors instead of wrong values, from-direction: when the Decimal has no more fraction digits than `decimals`, "
-             "decimal_to_signed_value is Ok exactly when mantissa * 10^(decimals-scale) fits i128 (thresholds i128::MAX / 10^e; a zero "
-             "mantissa is rejected from 67 decimals on), keeps sign and zero-ness; with more fraction digits it is always Ok, never grows "
-             "the magnitude and keeps the sign. "
+             "compared) and decimal_to_value / decimal_to_signed_value(d, decimals) returns Ok(num); for every u64 amount and decimals "
+             "<= 28 unsigned_amount_to_decimal is exact and decimal_to_amount returns the amount (thorough adds every i64 amount, with "
+             "Err for a negative amount / value in the unsigned targets). "
+             "(2) no panic and errors instead of wrong values, to-direction: unsigned/signed_fixed_to_decimal for every u128 / i128 and "
+             "every u8 decimals never panic (this check found the panic fixed in a64d072); above 96 bits the result is Some exactly when "
+             "cut <= decimals <= cut + 28 (cut = ilog10(num) - 27 trailing digits are dropped), with scale decimals - cut and a 28-digit "
+             "mantissa, None otherwise; unsigned/signed_value_to_decimal for every u128 / i128 and unsigned/signed_amount_to_decimal for "
+             "every u64 / i64 and every u8 decimals never panic (scale 28 and zero exactly below 10^(decimals-28) beyond 28 decimals, zero "
+             "above 47, sign kept). "
+             "(3) from-direction: decimal_to_signed_value never panics for every Decimal with |mantissa| < 2^32 (quick) / every valid "
+             "Decimal with a 96-bit mantissa (thorough), scale <= 28, and every u8 decimals; when the Decimal has no more fraction digits "
+             "than `decimals` it is Ok exactly when mantissa * 10^(decimals-scale) fits i128 (thresholds i128::MAX / 10^e; a zero mantissa "
+             "is rejected from 67 decimals on) and keeps sign and zero-ness; with more fraction digits it is always Ok, never grows the "
+             "magnitude and keeps the sign. "
              "Known by-design deviations from the literal statement, each witnessed by a kind=finding harness inside its region and excluded "
              "from the holds by exactly that region: c43_lossy_rescale (num above 96 bits is cut to its 28 leading digits; amounts with more "
              "than 28 decimals are divided by 10^(decimals-28)) and c43_from_rounds_fraction (a Decimal with more fraction digits than "
-             "`decimals` is rounded half-up instead of rejected).",
+             "`decimals` is rounded half-up instead of rejected; witnessed on the sub-region scale = decimals + 1 with a non-zero last digit).",
         note="Trusted: kani-compiler + CBMC/CaDiCaL; unwind 31 covers rust_decimal's rescale loops (<= 29 iterations on 96 bits; unwinding "
-             "assertions on). alloc::fmt::format is stubbed to an empty String (error messages are not compared). Not decided: the exact "
-             "numeric value of the compensated product mantissa * 10^(decimals-scale) in decimal_to_* when rescale falls short (only its "
-             "Ok/Err classification, sign and zero-ness; 128-bit multiplier-chain equivalence does not finish in CBMC), the exact digits kept "
-             "in the lossy region, and decimal_to_amount / decimal_to_value on arbitrary Decimals beyond their use in the round trips.",
+             "assertions on). alloc::fmt::format is stubbed to an empty String (error messages are not compared). Not decided (harnesses kept "
+             "as tier=experimental because CBMC does not finish 128-bit multiplier-chain equivalences): the exact numeric value of the "
+             "compensated product mantissa * 10^(decimals-scale) in decimal_to_* when rescale falls short of the target scale (only its "
+             "Ok/Err classification, sign and zero-ness), and the exact digits kept in the lossy region (only the digit count, scale and "
+             "Some/None rule). decimal_to_amount / decimal_to_value are decided only on the Decimals produced by the to-direction.",
         technique="Kani/CBMC symbolic execution of the real SDK conversion code on the real rust_decimal, exact integer oracles",
         design="C43"),
 }
